@@ -6,7 +6,7 @@
     * `normalize_e` / `concat_map` (coefficient map with the temporary constant symbol `C`),
       `get_normalized_expr`, `generate_loopIR` with `sorted((coeff, Sym))` ordering,
       `division_simplification` (all four exits), `division_denominator_simplification`,
-      the denominator–splitting loop, `modulo_simplification` (which asks only `e < m`, finding F2),
+      the denominator–splitting loop, `modulo_simplification` (asks `0 <= e < m` since the fix of finding F2, commit d86c98ae),
       `has_div_mod_config` gating, `index_start`, `_DoNormalize.map_e`;
     * `DoSimplify.cfold` / `map_binop` / `is_quotient_remainder` / `map_e`,
       `add_fact` / `is_known_constant` with the table keyed by the PRINTED expression
@@ -260,7 +260,9 @@ def divSplit (O : Oracle) (lhs : Expr) (d : Int) : Option Expr :=
     | .bin .div lhs' (.const d') => splitLoop O lhs' d' e d'.toNat 2
     | _ => some e
 
-/-- `modulo_simplification` for `lhs % m` — asks the range analysis only for `new_lhs < m` -/
+/-- `modulo_simplification` for `lhs % m` — asks the range analysis for `0 <= new_lhs < m`
+    (`check_expr_bounds(0, leq, new_lhs, lt, m)`, as of commit d86c98ae; before it only `new_lhs < m`
+    was asked, finding F2) -/
 def modSimp (O : Oracle) (lhs : Expr) (m : Int) : Option Expr :=
   match getNormalized lhs with
   | none => none
@@ -270,7 +272,7 @@ def modSimp (O : Oracle) (lhs : Expr) (m : Int) : Option Expr :=
     else
       let c' := if c % m = 0 then 0 else c
       let newLhs := gen c' nl'
-      if O newLhs .lt m then some newLhs else some (.bin .mod newLhs (.const m))
+      if O.between 0 newLhs m then some newLhs else some (.bin .mod newLhs (.const m))
 
 def normalForm (e : Expr) : Option Expr :=
   (getNormalized e).map (fun p => gen p.1 p.2)
